@@ -3958,12 +3958,11 @@ theorem byCertificate_recorded {P : PColl} (hp : PInv P) (o : CertOrigin) (id : 
   unfold PColl.byCertificate
   simp only [hrec, Option.bind_some, hget]
 
-/-- **admin_token_issuer (the clause "… issued to a registered administrator of the issuing
-    provisioner")** — on a consistent CA, when the certificate's database record names a
+/-- the provable core of `AdminTokenIssuer` on the structural invariants — on a consistent CA, when the certificate's database record names a
     provisioner id that still exists, a request is authorized only on behalf of an administrator
     registered with *that provisioner id*: renaming the provisioner, creating another one under
     its old name and registering the same subject there do not change whose certificate it is. -/
-theorem admin_token_issuer {s : Auth} {E : List Ent} (hp : PInv s.cache.P) (ha : AInv s.cache.A)
+theorem admin_token_issuer_core {s : Auth} {E : List Ent} (hp : PInv s.cache.P) (ha : AInv s.cache.A)
     (g : GRep s.cache.A E) (hl : Linked s.cache.P E) (o : CertOrigin) (r : AdminReq) (adm : Adm) (id : Str)
     (hrec : o.recorded = some id) (hex : s.cache.P.byID.get id ≠ none)
     (h : (s.requestFrom o r).2 = .ok adm) :
@@ -4011,7 +4010,7 @@ theorem renamed_issuer_current :
       = .ok { id := s "a9", sub := s "nobody", provId := s "p9", super := true } := by
   decide
 
-/-- the limit of `admin_token_issuer` as the code stands: when the recorded issuer has been
+/-- the limit as the code stands (see `admin_token_issuer_refuted_deleted`): when the recorded issuer has been
     *deleted*, the lookup falls back to the name in the extension, and a provisioner created under
     that name inherits the old certificates (hypothesis `hex` of the theorem fails) -/
 example :
@@ -4021,5 +4020,139 @@ example :
     (s1.requestFrom { recorded := some (s "px"), extName := some (s "n0") } Witness.nobodyReq).2
       = .ok { id := s "a9", sub := s "nobody", provId := s "p9", super := true } := by
   decide
+
+/-! ### `admin_token_issuer`: full statement, refutation (open finding C16-O4), proved part -/
+
+/-- **admin_token_issuer (full strength; the first sentence of the property: "… a certificate that
+    this CA issued to a registered administrator of the issuing provisioner")** — on a CA that is
+    consistent with its database, a request presented with a certificate whose database record names
+    provisioner `id` is authorized only on behalf of an administrator registered with provisioner
+    `id`. **False for the code as it stands** (`admin_token_issuer_refuted_deleted`). -/
+def AdminTokenIssuer : Prop :=
+  ∀ (U : List Prov) (s : Auth) (o : CertOrigin) (r : AdminReq) (adm : Adm) (id : Str),
+    SumsOK U → FullInv U s → o.recorded = some id → (s.requestFrom o r).2 = .ok adm → adm.provId = id
+
+namespace Witness
+/-- a CA started on `db0` to which provisioner `p9` named `n0`… no: `db0` has `p0` named `n0`; a second
+    provisioner `p8`/`n8` is created and `nobody` made its super administrator -/
+def p8 : Prov := { id := s "p8", name := s "n8", tok := s "t8", kid := none, sum := s "8899aabbccddeeff0011223344556677" }
+def afterRecreate : Auth :=
+  Auth.run Variant.fixed (booted .fixed) [(.storeProv p8, []),
+    (.storeAdmin { id := s "a8", sub := s "nobody", provId := s "p8", super := true } (s "p8") (s "n8"), [])]
+end Witness
+
+theorem sumsOK_witness : SumsOK [p0, Witness.p8] := by
+  refine ⟨?_, ?_⟩
+  · intro p hp
+    simp only [List.mem_cons, List.not_mem_nil, or_false] at hp
+    rcases hp with rfl | rfl <;> exact ⟨by decide, by decide⟩
+  · intro p hp q hq
+    simp only [List.mem_cons, List.not_mem_nil, or_false] at hp hq
+    rcases hp with rfl | rfl <;> rcases hq with rfl | rfl <;> decide
+
+theorem fullInv_witness : FullInv [p0, Witness.p8] Witness.afterRecreate := by
+  have hb : FullInv [p0, Witness.p8] (booted .fixed) :=
+    boot_inv [p0, Witness.p8] sumsOK_witness db0 ⟨⟨by decide, by decide, by decide, by simp [db0]⟩, by decide, by decide, by
+      simp [db0, p0]⟩ (by decide)
+  exact run_inv [p0, Witness.p8] sumsOK_witness _ _ hb
+    ⟨by simp [ValidOp], not_twoFaults_of_single (by decide), by unfold ValidOp; decide,
+      not_twoFaults_of_single (by decide), trivial⟩
+
+/-- **admin_token_issuer_refuted_deleted (open finding C16-O4)** — the full statement is false for
+    /repo as it stands. A consistent CA serves provisioner `p8` named `n8` with super administrator
+    `nobody`. A certificate for `nobody` whose database record names a provisioner `px` that no
+    longer exists (deleted), and whose extension carries the name `n8` (the name `px` had, given
+    to `p8` since), is accepted as `nobody` of `p8`: `LoadProvisionerByCertificate` falls back from
+    the recorded id to the name in the extension. -/
+theorem admin_token_issuer_refuted_deleted : ¬ AdminTokenIssuer := by
+  intro h
+  have := h [p0, Witness.p8] Witness.afterRecreate { recorded := some (s "px"), extName := some (s "n8") }
+    Witness.nobodyReq { id := s "a8", sub := s "nobody", provId := s "p8", super := true } (s "px")
+    sumsOK_witness fullInv_witness rfl (by decide)
+  revert this; decide
+
+/-- **admin_token_issuer_partial** — the statement holds whenever the recorded provisioner still
+    exists: renaming it, creating another provisioner under its old name and registering the same
+    subject there do not change whose certificate it is (seed C16/1's shape). Missing against the
+    full statement: the case of a *deleted* recorded provisioner (refuted above). -/
+theorem admin_token_issuer_partial (U : List Prov) (s : Auth) (o : CertOrigin) (r : AdminReq) (adm : Adm) (id : Str)
+    (hinv : FullInv U s) (hrec : o.recorded = some id) (hex : s.cache.P.byID.get id ≠ none)
+    (h : (s.requestFrom o r).2 = .ok adm) :
+    adm.provId = id ∧ adm ∈ s.cache.A.sorted ∧ adm.sub ∈ r.sans := by
+  obtain ⟨E, hE⟩ := hinv.1
+  exact admin_token_issuer_core hE.pinv hE.ast.ainv hE.ast.grep hE.ast.linked o r adm id hrec hex h
+
+/-- … and when the certificate has no database record at all, the request is authorized only on
+    behalf of an administrator of the provisioner that carries the name in its extension now -/
+theorem admin_token_issuer_unrecorded (U : List Prov) (s : Auth) (o : CertOrigin) (r : AdminReq) (adm : Adm)
+    (hinv : FullInv U s) (hrec : o.recorded = none) (h : (s.requestFrom o r).2 = .ok adm) :
+    ∃ n p, o.extName = some n ∧ s.cache.P.byName.get n = some p ∧ adm.provId = p.id := by
+  obtain ⟨E, hE⟩ := hinv.1
+  unfold Auth.requestFrom Auth.request at h
+  simp only at h
+  generalize hres : authorizeAdmin s.cache.A s.db.used { r with prov := (s.cache.P.byCertificate o).map (·.name) } = res at h
+  obtain ⟨used', z⟩ := res
+  simp only at h
+  subst h
+  have reg := admin_token_registered hE.pinv hE.ast.ainv hE.ast.grep hE.ast.linked s.db.used used' _ adm hres
+  have hbc : s.cache.P.byCertificate o = o.extName.bind s.cache.P.byName.get := by
+    unfold PColl.byCertificate; simp [hrec]
+  cases hn : o.extName with
+  | none =>
+    rw [hbc, hn] at reg
+    simp only [Option.bind_none, Option.map_none] at reg
+    obtain ⟨_, _, _, _, pn, hpn, _⟩ := admin_token_only_if s.cache.A s.db.used used' _ adm hres
+    rw [hbc, hn] at hpn; simp at hpn
+  | some n =>
+    cases hg : s.cache.P.byName.get n with
+    | none =>
+      obtain ⟨_, _, _, _, pn, hpn, _⟩ := admin_token_only_if s.cache.A s.db.used used' _ adm hres
+      rw [hbc, hn] at hpn; simp [hg] at hpn
+    | some p =>
+      refine ⟨n, p, rfl, hg, ?_⟩
+      rw [hbc, hn] at reg
+      simp only [Option.bind_some, hg, Option.map_some] at reg
+      obtain ⟨q, hq, hqid, hqn⟩ := (PInv.provName hE.pinv).mp reg.2.2
+      have hpl : p ∈ s.cache.P.provs := (hE.pinv.idx_name.get_some.mp hg).1
+      have : q = p := (hE.pinv.unique hq hpl).2.1 hqn
+      rw [← hqid, this]
+
+/-- with the strict lookup the two agree as long as the recorded provisioner exists … -/
+theorem byCertificateStrict_eq {P : PColl} (o : CertOrigin)
+    (h : ∀ id, o.recorded = some id → P.byID.get id ≠ none) : P.byCertificateStrict o = P.byCertificate o := by
+  unfold PColl.byCertificateStrict PColl.byCertificate
+  cases hr : o.recorded with
+  | none => simp
+  | some id =>
+    cases hg : P.byID.get id with
+    | none => exact absurd hg (h id hr)
+    | some p => simp [hg]
+
+/-- **… and the full statement holds for it (the repair sketched in notes/C16.md proves the
+    clause)**: with a lookup that does not fall back to the name when the record names a
+    provisioner, a request is authorized only for an administrator of the recorded provisioner —
+    no hypothesis about that provisioner still existing. The driver of stage `token` runs this
+    lookup; the lines on which /repo differs are the known finding C16-O4. -/
+theorem admin_token_issuer_strict (U : List Prov) (s : Auth) (o : CertOrigin) (r : AdminReq) (adm : Adm) (id : Str)
+    (hinv : FullInv U s) (hrec : o.recorded = some id) (h : (s.requestFromStrict o r).2 = .ok adm) :
+    adm.provId = id := by
+  cases hg : s.cache.P.byID.get id with
+  | none =>
+    exfalso
+    unfold Auth.requestFromStrict Auth.request at h
+    simp only at h
+    generalize hres : authorizeAdmin s.cache.A s.db.used { r with prov := (s.cache.P.byCertificateStrict o).map (·.name) } = res at h
+    obtain ⟨used', z⟩ := res
+    simp only at h
+    subst h
+    obtain ⟨_, _, _, _, pn, hpn, _⟩ := admin_token_only_if s.cache.A s.db.used used' _ adm hres
+    unfold PColl.byCertificateStrict at hpn
+    simp [hrec, hg] at hpn
+  | some p =>
+    have he : s.cache.P.byCertificateStrict o = s.cache.P.byCertificate o :=
+      byCertificateStrict_eq o (fun id' h' => by rw [hrec] at h'; cases h'; rw [hg]; simp)
+    have h' : (s.requestFrom o r).2 = .ok adm := by
+      unfold Auth.requestFrom; unfold Auth.requestFromStrict at h; rw [← he]; exact h
+    exact (admin_token_issuer_partial U s o r adm id hinv hrec (by rw [hg]; simp) h').1
 
 end Verif.Admin
